@@ -81,7 +81,11 @@ class DirHandler(BaseHandler):
                 # This entry cannot be served (dangling symlink, special file,
                 # removed since the directory was read, or a name that the
                 # selector security check rejects).  Leave it out instead of
-                # failing the whole directory.
+                # failing the whole directory.  What made it unservable may
+                # be gone a moment later (a full descriptor table, an I/O
+                # error): a listing that lacks an entry of its directory is
+                # sent to this client, but not kept for the others.
+                self.cacheunusable = True
                 continue
             self.prep_entriesappend(file, handler, fileentry)
 
